@@ -360,7 +360,7 @@ func init() {
 						return nil
 					})
 					o.Events += events(res) + 1
-					if res.Verdict != engine.Accept {
+					if !res.AcceptedHonestly() {
 						return fw.Violate("challenger_modifies_callers_slice", fmt.Sprintf("windows of %d over %d values: %s %s", w, n, resStr(res), res.Msg))
 					}
 					rc := ref.NewChallenger()
@@ -499,7 +499,7 @@ func init() {
 					if io, bad := inconclusiveIf(res); bad {
 						return io
 					}
-					if res.Verdict != engine.Accept {
+					if !res.AcceptedHonestly() {
 						return fw.Violate("challenger_failed", fmt.Sprintf("history of %d ops: %s", len(h), resStr(res)))
 					}
 					want := runHistoryRef(h)
@@ -555,7 +555,7 @@ func init() {
 						return nil
 					})
 					o.Events += events(res)
-					if res.Verdict != engine.Accept {
+					if !res.AcceptedHonestly() {
 						return fw.Violate("get_challenges_failed", resStr(res))
 					}
 					for k, pair := range []struct {
@@ -633,7 +633,7 @@ func init() {
 						return nil
 					})
 					o.Events += events(res) + 1
-					if res.Verdict != engine.Accept {
+					if !res.AcceptedHonestly() {
 						return fw.Violate("get_fri_challenges_failed", fmt.Sprintf("caps=%d final=%d queries=%d: %s", ncaps, len(fp), nq, resStr(res)))
 					}
 					rc := ref.NewChallenger()
@@ -694,7 +694,7 @@ func init() {
 					}
 					base, res0 := circuitChallenges((*instT)(in), engine.Native)
 					o.Events += events(res0)
-					if res0.Verdict != engine.Accept {
+					if !res0.AcceptedHonestly() {
 						return fw.Violate("get_challenges_failed", resStr(res0))
 					}
 					p, ok := toRefProof(&in.PWI)
@@ -741,7 +741,7 @@ func init() {
 					_ = changedIdx
 					after, res1 := circuitChallenges((*instT)(in), engine.Native)
 					o.Events += events(res1)
-					if res1.Verdict != engine.Accept {
+					if !res1.AcceptedHonestly() {
 						return fw.Violate("get_challenges_failed", resStr(res1))
 					}
 					for i := range base {
@@ -1300,7 +1300,7 @@ func init() {
 					in.PWI.Proof.OpeningProof.PowWitness = gl.NewVariable(w)
 					chs, res0 := circuitChallenges((*instT)(in), engine.Native)
 					o.Events += events(res0)
-					if res0.Verdict != engine.Accept {
+					if !res0.AcceptedHonestly() {
 						return fw.Violate("get_challenges_failed", resStr(res0))
 					}
 					p, _ := toRefProof(&in.PWI)
